@@ -35,7 +35,7 @@ Access(s) ==
                      /\ V("to", s, i, 0, RangeTo(s, i))
                      /\ V("to_incl", s, i, 0, RangeToIncl(s, i))
                      /\ V("set", s, i, 77, SetByte(s, i, 77))
-  /\ \A a \in IdxsOf(Len(s)), b \in IdxsOf(Len(s)) : V("range", s, a, b, RangeOf(s, a, b)) /\ V("incl", s, a, b, RangeIncl(s, a, b))
+  /\ \A a \in IdxsOf(Len(s)), b \in IdxsOf(Len(s)) : V("range", s, a, b, RangeOf(s, a, b)) /\ V("incl", s, a, b, RangeIncl(s, a, b)) /\ V("incl_spent", s, a, b, RangeInclSpent(s, a, b))
   /\ \A m \in OthersOf(Len(s)), q \in {1, 2, 3, 5} : VO("eq", s, m, q, Content(m, q), [k |-> "bool", v |-> s = Content(m, q)])
 \* concat: every short length and every long one as the argument of every short receiver; for long receivers the edge lengths
 \* and the lengths around 24/32 (a receiver shorter than, equal to and longer than the argument; totals across 32 and 64)
